@@ -9,7 +9,7 @@ from .. import core, gen, hist, model
 from ..session import Outcome
 from . import PropBase, steps_with_ids
 
-FAULTS = ("mutate_returned", "clear", "clear_typing", "stack", "spelling")
+FAULTS = ("mutate_returned", "clear", "clear_typing", "stack", "spelling", "exhaust_scan")
 SPELLINGS = ("type", "str", "fref", "newtype", "alias", "itertypes")
 
 
@@ -219,6 +219,9 @@ class C09(PropBase):
                 step = {"op": "graph", "t": t, "spelling": rng.choice(["str", "str", "fref", "type"]), "mod": t["m"]}
             if "stack" in sw and rng.random() < 0.2:
                 step["depth"] = rng.randint(1, 30)
+            if "exhaust_scan" in sw and rng.random() < 0.35:
+                # the walk is first attempted from every stack depth at which it cannot complete
+                step["scan"] = True
             steps.append(step)
             graphs.append(len(steps) - 1)
         return {"prop": self.ID, "seed": seed, "tier": tier, "world": world, "env": env, "steps": steps_with_ids(steps), "meta": {"swarm": sw}}
@@ -283,6 +286,8 @@ class C09(PropBase):
             except TypeError:
                 arg = T
                 sp = "type"
+        if step.get("scan"):
+            sess.scan_exhaust(step, fn, arg)
         out = sess.guarded(sess.call, step, fn, arg)
         sess._c09 = (T, arg, sp)
         if out.ok:
